@@ -529,6 +529,61 @@ def r10(ctx):
         raise AnchorError("at_pos patch sites: %d (expected >= 7)" % n)
 
 
+def r11(ctx):
+    """Width / length agreement outside the fixed-size codecs: (a) the qualifier constants of the 1- and 2-byte index types are the
+    8- and 16-bit codes of their kind; (b) the extended attribute list length is biased by the same constant on both sides;
+    (c) every variable-length string of a file object (g70) is announced with the BYTE length of exactly the bytes written."""
+    prog = ctx.prog
+    # (a)
+    qv = dict(prog.enum_variants("dnp3::app::app_enums::QualifierCode"))
+    if len(qv) < 7:
+        raise AnchorError("QualifierCode variants")
+    base = {"COUNT_AND_PREFIX_QUALIFIER": "CountAndPrefix", "RANGE_QUALIFIER": "Range", "LIMITED_COUNT_QUALIFIER": "Count"}
+    n = 0
+    for ty, bits in (("u8", "8"), ("u16", "16")):
+        for cn, stem in base.items():
+            c = prog.consts.get("<%s as dnp3::app::parse::traits::Index>::%s" % (ty, cn))
+            if c is None:
+                raise AnchorError("<%s as Index>::%s" % (ty, cn))
+            n += 1
+            got = qv.get(c.get("v"))
+            ctx.check(got == stem + bits, "index-qualifier:%s:%s" % (ty, cn), "<%s as Index>::%s = QualifierCode::%s" % (ty, cn, got), "", bad_detail="<%s as Index>::%s is QualifierCode::%s, expected %s%s: headers written with a %s-byte count/index are announced with the other width and the parser mis-frames the fragment" % (ty, cn, got, stem, bits, "1" if ty == "u8" else "2"))
+    # (b)
+    wb = prog.body("attrs::get_list_encoding")
+    wsub = [const_value(prog, ctx.sym(wb).call_expr(b.term)[2][1]) for b in call_sites(wb, r"::checked_sub$")]
+    pb = prog.body("app::attr::AttrValue::parse")
+    ps = ctx.sym(pb)
+    padd = []
+    for b, si, st in pb.assigns():
+        if st.rv["k"] == "bin" and st.rv["op"].startswith("Add"):
+            e = ps.rvalue_expr(st.rv)
+            if mentions_call(e, r"ReadCursor::read_u8$"):
+                padd.append(const_value(prog, e[3]))
+    ctx.check(len(wsub) == 1 and len(padd) == 1 and wsub[0] == padd[0] == 256, "ext-attr-list:bias", "extended attribute list: writer subtracts %s, parser adds %s" % (wsub, padd), wb.where(line=wb.line), bad_detail="extended attribute list length: the outstation subtracts %s, the parser adds %s (must both be 256)" % (wsub, padd))
+    # (c)
+    k = 0
+    for bd in prog.bodies_matching(r"^dnp3::app::file::g70v\d::Group70Var\d::write$"):
+        sym = ctx.sym(bd)
+        strings = {}
+        for b in call_sites(bd, r"WriteCursor::write_bytes$"):
+            e = sym.call_expr(b.term)[2][1]
+            for x in expr_walk(e):
+                if x[0] == "field" and x[1] in (("param", "self"),):
+                    strings[x[2]] = b
+        for b in call_sites(bd, r"WriteCursor::write_u(16|32)_le$"):
+            v = sym.call_expr(b.term)[2][1]
+            fs = [f for f in strings if mentions_field(v, f)]
+            if not fs:
+                continue
+            k += 1
+            ok = (mentions_call(v, r"file::byte_length$|str::len$|\]>::len$|::len$")) and not mentions_call(v, r"chars$|::count$|char_indices$")
+            ctx.check(ok, "g70-length:%s:%s" % (bd.path.split("::")[-2], fs[0]), "length of %s = %s" % (fs[0], expr_str(v)[:60]), bd.where(b.idx), bad_detail="%s announces `%s` with `%s`, which is not the number of BYTES written for it: a name with a multi-byte character is cut short by the parser" % (bd.path.split("::")[-2], fs[0], expr_str(v)[:80]))
+    if k < 4:
+        raise AnchorError("g70 length fields: %d (expected >= 4)" % k)
+    bl = prog.body("app::file::byte_length")
+    ctx.check(bool(call_sites(bl, r"str>::len$|str::len$")) and not call_sites(bl, r"chars$|::count$"), "byte_length", "byte_length() is str::len (bytes)", bl.where(line=bl.line))
+
+
 RULES = [
     ("C09.R1", "T6", "FixedSize codecs: read sequence = write sequence, widths sum to SIZE", r1),
     ("C09.R2", "T4", "Variation::lookup / to_group_and_var inverse; names equal numbers; VARIATION constants", r2),
@@ -538,5 +593,6 @@ RULES = [
     ("C09.R7", "T2", "free-format: count == 1 and an exhausted sub-cursor", r7),
     ("C09.R8", "T2/T8", "sequences take exactly their byte count before decoding; iterator indices cannot wrap", r8),
     ("C09.R10", "T3", "back-patched counts / range stops are written after the data they announce", r10),
+    ("C09.R11", "T11/T8", "index qualifier constants, attribute-list bias and file-object length fields agree between writer and parser", r11),
     ("C09.R9", "T6/T10", "device attribute values: writer and parser agree on width and signedness for every encoded length", r9),
 ]
